@@ -16,7 +16,7 @@
      C13_ticks                  per tick, with 'tick / 'static persistence per side, the output is
                                 the join of everything that arrived within the persisted scope *)
 From Coq Require Import Permutation.
-From HV Require Import Pull.Model Pull.PCore Pull.ModelJoin Pull.PJoin Pull.PJoin2 Pull.CorrJoin Pull.PJoin3.
+From HV Require Import Pull.Model Pull.PCore Pull.ModelJoin Pull.PJoin Pull.PJoin2 Pull.CorrJoin Pull.PJoin3 Pull.PSound.
 Open Scope N_scope.
 
 (* every poll of SymmetricHashJoin preserves the invariant, whatever the scripts answer *)
@@ -115,6 +115,20 @@ Theorem C13_ticks : forall s p1 p2 ticks,
   Forall2 (@Permutation _) (run_ticks s p1 p2 half0 half0 ticks) (ref_ticks s p1 p2 [] [] ticks).
 Proof. intros s p1 p2 ticks. apply run_ticks_ref; apply holds_empty. Qed.
 Print Assumptions C13_ticks.
+
+(* the executable form used by the check is sound for the statements above *)
+Theorem C13_checker_sound : forall c o, C13_holds_b c o = true ->
+  match c with
+  | JInc s pre1 pre2 l1 l2 =>
+      exists out, jemitted (o_trace o) = Some out /\
+        Permutation (out ++ join_rows (built s pre1) (built s pre2))
+                    (join_rows (built s (pre1 ++ items l1)) (built s (pre2 ++ items l2))) /\
+        (s = SetSem -> NoDup out)
+  | JTicks s p1 p2 ticks =>
+      Forall2 (@Permutation _) (map fst (o_ticks o)) (ref_ticks s p1 p2 [] [] ticks)
+  end.
+Proof. exact C13_holds_b_sound. Qed.
+Print Assumptions C13_checker_sound.
 
 (* non-vacuity: duplicates on both sides, a Pend on each side; set vs multiset *)
 Example C13_ex_set :
